@@ -530,3 +530,88 @@ Proof.
   split; [apply wf_graphb_sound; vm_compute; reflexivity|]. split; [apply wf_graphb_sound; vm_compute; reflexivity|].
   split; [vm_compute; reflexivity|]. eexists. split; [vm_compute; reflexivity|]. repeat split.
 Qed.
+
+(** ------------------------------------------------------------ the case of pairwise disjoint pairs *)
+Definition disjoint_pairs (ps : list (Z * Z)) : Prop := NoDup (map fst ps ++ map snd ps).
+
+Lemma NoDup_app_elim (l m : list Z) : NoDup (l ++ m) -> NoDup l /\ NoDup m /\ forall x, In x l -> In x m -> False.
+Proof.
+  induction l as [|a l IH]; cbn; intros H; [repeat split; [constructor|assumption|intros x []]|].
+  inversion H as [|? ? Ha Hr]; subst. destruct (IH Hr) as (A & B & C). repeat split.
+  - constructor; [intro X; apply Ha; apply in_or_app; now left|assumption].
+  - assumption.
+  - intros x [-> |Hx] Hm; [apply Ha; apply in_or_app; now right|eauto].
+Qed.
+Lemma nodup_map_unique {B} (f : Z * Z -> B) (g : Z * Z -> Z) ps x y :
+  NoDup (map g ps) -> In x ps -> In y ps -> g x = g y -> x = y.
+Proof.
+  induction ps as [|p ps IH]; intros Hnd Hx Hy E; [contradiction|]. cbn in Hnd. inversion Hnd as [|? ? Hp Hr]; subst.
+  destruct Hx as [-> |Hx]; destruct Hy as [-> |Hy]; try reflexivity.
+  - exfalso. apply Hp. rewrite E. now apply in_map.
+  - exfalso. apply Hp. rewrite <- E. now apply in_map.
+  - auto.
+Qed.
+
+Definition paired (ps : list (Z * Z)) (p q : Z) : Prop := p = q \/ In (p, q) ps \/ In (q, p) ps.
+Lemma bconn_disjoint ps p q : disjoint_pairs ps -> bconn ps p q -> paired ps p q.
+Proof.
+  intros D. destruct (NoDup_app_elim _ _ D) as (Nf & Ns & X).
+  assert (Uf : forall a b c, In (a, b) ps -> In (a, c) ps -> b = c).
+  { intros a b c H1 H2. pose proof (nodup_map_unique (fun e => e) fst ps (a, b) (a, c) Nf H1 H2 eq_refl) as E. now inversion E. }
+  assert (Us : forall a b c, In (a, b) ps -> In (c, b) ps -> a = c).
+  { intros a b c H1 H2. pose proof (nodup_map_unique (fun e => e) snd ps (a, b) (c, b) Ns H1 H2 eq_refl) as E. now inversion E. }
+  assert (No : forall a b c, In (a, b) ps -> In (b, c) ps -> False).
+  { intros a b c H1 H2. apply (X b); [apply (in_map fst _ _ H2)|apply (in_map snd _ _ H1)]. }
+  induction 1 as [x|a b Hin|x y _ IH|x y z _ IH1 _ IH2].
+  - now left.
+  - right. now left.
+  - destruct IH as [-> |[H|H]]; [now left|right; now right|right; now left].
+  - destruct IH1 as [-> |[H1|H1]]; [exact IH2|..]; destruct IH2 as [<- |[H2|H2]].
+    + right; now left.
+    + exfalso. exact (No x y z H1 H2).
+    + left. exact (Us x y z H1 H2).
+    + right; now right.
+    + left. exact (Uf y x z H1 H2).
+    + exfalso. exact (No z y x H2 H1).
+Qed.
+Lemma paired_bconn ps p q : paired ps p q -> bconn ps p q.
+Proof. intros [-> |[H|H]]; [apply bc_refl|now apply bc_pair|apply bc_sym; now apply bc_pair]. Qed.
+
+(** [share_vs_cut_pairs]: when no atom occurs in two `!` pairs (every shared atom has exactly two copies) the
+    first hypothesis of [share_vs_cut_many] reads: two atoms are copies of the same atom iff they are the two
+    ends of a pair *)
+Theorem share_vs_cut_pairs gd gs (pi : Z -> Z) g' : wf_graph gs -> squash_atoms gs = Ok g' ->
+  disjoint_pairs (bang_items gs) ->
+  (forall p q, In p (node_keys gs) -> In q (node_keys gs) -> (paired (bang_items gs) p q <-> pi p = pi q)) ->
+  (forall a b, has_edge gd a b = qedge pi (dir_edges gs) a b) ->
+  (forall a, has_node gd a = true <-> exists p, In p (node_keys gs) /\ pi p = a) ->
+  (forall y, In y (node_keys g') -> has_node gd (pi y) = true) /\
+  (forall a, has_node gd a = true -> exists y, In y (node_keys g') /\ pi y = a) /\
+  (forall y x, In y (node_keys g') -> In x (node_keys g') -> pi y = pi x -> y = x) /\
+  (forall y x, In y (node_keys g') -> In x (node_keys g') -> has_edge g' y x = has_edge gd (pi y) (pi x)) /\
+  (length g' + length (bang_items gs) = length gs)%nat.
+Proof.
+  intros W H D H1 H2 H3.
+  assert (H1' : forall p q, In p (node_keys gs) -> In q (node_keys gs) -> (bconn (bang_items gs) p q <-> pi p = pi q)).
+  { intros p q Hp Hq. rewrite <- (H1 p q Hp Hq). split; [apply bconn_disjoint; exact D|apply paired_bconn]. }
+  destruct (share_vs_cut_many gd gs pi g' W H H1' H2 H3) as (A & B & C & E).
+  repeat split; try assumption.
+  (* no pair is redundant: the two ends of a pair are never already one atom *)
+  apply (squash_count_per_pair gs g' W H).
+  assert (G : forall ps sq, disjoint_pairs ps ->
+              (forall x, In x (map fst ps ++ map snd ps) -> ~ In x (sq_keys sq)) ->
+              length (squash_plan sq ps) = length ps).
+  { induction ps as [|[a b] ps IHp]; intros sq Dp Hs; [reflexivity|]. cbn [squash_plan].
+    unfold disjoint_pairs in Dp. cbn [map fst snd app] in Dp, Hs.
+    inversion Dp as [|? ? Hna Dr]; subst.
+    pose proof (NoDup_remove_1 _ _ _ Dr) as Dps. pose proof (NoDup_remove_2 _ _ _ Dr) as Nb.
+    assert (Ka : ~ In a (sq_keys sq)) by (apply Hs; now left).
+    assert (Kb : ~ In b (sq_keys sq)) by (apply Hs; right; apply in_or_app; right; now left).
+    rewrite (pass_nonkey sq a Ka), (pass_nonkey sq b Kb).
+    assert (Nab : a <> b) by (intro X; subst; apply Hna; apply in_or_app; right; now left).
+    destruct (Z.eqb_spec a b) as [?|_]; [contradiction|]. cbn [length]. f_equal. apply IHp; [exact Dps|].
+    intros x Hx. unfold sq_keys. rewrite map_app. cbn [map fst]. intro Y. apply in_app_or in Y as [Y|[Y|[]]].
+    - revert Y. apply Hs. right. apply in_app_or in Hx as [Hx|Hx]; apply in_or_app; [now left|right; now right].
+    - subst x. exact (Nb Hx). }
+  apply G; [exact D|]. intros x _ [].
+Qed.
